@@ -472,6 +472,16 @@ func (g *gen) commandStep() (omap, umap) {
 		in = append(in, kv{"cache", true})
 		want["cache"] = umap{}
 	}
+	// a key of a lower-ranked step family next to the command keys: still a command step (the key is
+	// an extra key), wherever it stands in the document
+	switch g.r.Intn(16) {
+	case 0:
+		in = append(in, kv{"wait", nil})
+		want["wait"] = nil
+	case 1:
+		in = append(in, kv{"trigger", "elsewhere"})
+		want["trigger"] = "elsewhere"
+	}
 	g.extras(&in, want, taken)
 	g.r.Shuffle(len(in), func(i, j int) { in[i], in[j] = in[j], in[i] })
 	return in, want
@@ -509,6 +519,11 @@ func (g *gen) inputStep() (any, any) {
 	want := umap{kind: s, "fields": []any{omap{{"text", "Name"}, {"key", "name"}, {"required", false}}, omap{{"select", "Pick"}, {"options", []any{omap{{"label", "A"}, {"value", 1}}}}}}}
 	taken := clone(commandKnown)
 	taken["fields"] = true
+	if g.r.Intn(4) == 0 {
+		// a trigger key written first: the input family still outranks it
+		in = append(omap{{"trigger", "elsewhere"}}, in...)
+		want["trigger"] = "elsewhere"
+	}
 	g.extras(&in, want, taken)
 	return in, want
 }
